@@ -194,7 +194,10 @@ def _heads(sym, out: set, depth=0, bound=frozenset()):
         return
 
     def add(h):
-        if h[0] == "v" and h[1] in bound:
+        core = h
+        while core[0] == "perm":
+            core = core[3]  # a (sorted) image of a position bound by a fold over all teams is still "every team"
+        if core[0] == "v" and core[1] in bound:
             return
         out.add(h)
 
